@@ -61,6 +61,8 @@ def check(ck, pid, *, only=None, parts=6, rows=None, nontrivial=None):
         vlib.write_ndjson(f, rows)
         res, bad = vlib.validate_rows("F1Run", "Trace_F1Run_%s.cfg" % pid, f, var="tr", workers=8, timeout=1500)
         ck.add_tlc("Trace_F1Run_%s.cfg" % pid, res)
+        if pid in ("C05", "C06") and only is None:
+            phases(ck, pid, rows, f)
     ck.traces += len(rows)
     ck.evaluations += len(rows)
     for r in rows:
@@ -83,6 +85,56 @@ def check(ck, pid, *, only=None, parts=6, rows=None, nontrivial=None):
         ck.observe(key, "%s in %d real run(s); first: %s" % (key, len(lst), json.dumps(brief)[:900]),
                    dict(rows=[dict(cfg=x["cfg"], ev=x["ev"][:400]) for x in lst[:3]]))
     return rows
+
+
+PHASE_PROP = {"start": "C05", "end": "C05", "timeoutmsg": "C05", "ret": "C05", "endmsg": "C05",
+              "setup": "C06", "setupcleanup": "C06", "summary": "C06"}
+
+
+def phases(ck, pid, rows, trace_file):
+    """Every whole run must be a behaviour of the generative specification RunPhases (Run.Do's control flow):
+    TLC replays the recorded outputs as specification actions; a refused event is reported under the property
+    it belongs to (C05: starts/ends/messages/return, C06: setup, setup cleanups, summary)."""
+    res, bad = vlib.validate_rows("Trace_RunPhases", "Trace_RunPhases.cfg", trace_file, var="tr", workers=8, timeout=900)
+    ck.add_tlc("Trace_RunPhases.cfg", res)
+    # which of the specification's six end-to-end paths the real runs exercised (vacuity guard, in the evidence)
+    paths = {}
+    for r in rows:
+        ks = [e for e in r["ev"] if e["k"] in ("setup", "endmsg", "timeoutmsg")]
+        ok = any(e["k"] == "setup" and e["a"] == 1 for e in ks)
+        end = next((e["s"] for e in ks if e["k"] == "endmsg"), "-")
+        sig = "setup-failed" if not ok else end + ("+timeout" if any(e["k"] == "timeoutmsg" for e in ks) else "")
+        paths[sig] = paths.get(sig, 0) + 1
+    ck.notes["runphases_paths_exercised"] = paths
+    want = {"setup-failed", "maxdur", "maxiter", "interrupt", "maxdur+timeout", "interrupt+timeout"}
+    if ck.tier == "thorough" and not want <= set(paths):
+        raise vlib.MachineryError("whole-run cases no longer exercise every path of RunPhases: missing %s" % sorted(want - set(paths)))
+    refused = {}
+    for ch in re.split(r"Error: Invariant \S+ is violated", res.output)[1:]:
+        m = re.search(r"^(?:/\\ )?tr = (\d+)", ch, re.M)
+        if not m:
+            continue
+        k = int(m.group(1))
+        last = ch.split("\nState ")[-1]
+        mb = re.search(r'bad = "([a-z]*)"', last)
+        mp = re.search(r'ph = "([a-z]*)"', last)
+        ml = re.search(r"\blive = (\d+)", last)
+        what = mb.group(1) if mb and mb.group(1) else "incomplete"
+        refused.setdefault(k, set()).add((what, mp.group(1) if mp else "?", ml.group(1) if ml else "?"))
+    groups = {}
+    for k in bad:
+        r = rows[k - 1]
+        for what, ph, live in sorted(refused.get(k, {("unparsed", "?", "?")})):
+            prop = PHASE_PROP.get(what, "C05")
+            if prop != pid:
+                continue
+            groups.setdefault("%s:not-a-behaviour-of-RunPhases(%s-refused-in-phase-%s)@%s" % (pid, what, ph, r["cfg"]["mode"]), []).append((r, live))
+    for key, lst in groups.items():
+        r, live = lst[0]
+        brief = dict(cfg=r["cfg"], in_flight=live, outputs=[[e["k"], e["a"], e["c"], e["s"][:40]] for e in r["ev"]
+                                                            if e["k"] in PHASE_PROP or e["k"] in ("cancel", "noreturn")][-14:])
+        ck.observe(key, "%s in %d real run(s); first: %s" % (key, len(lst), json.dumps(brief)[:900]),
+                   dict(rows=[dict(cfg=x["cfg"], ev=x["ev"][:400]) for x, _ in lst[:3]]))
 
 
 def extra(ck, pid, sub, fname, describe=None):
